@@ -157,9 +157,21 @@ def compare_queries(q1, q2):
     from lqv import qstruct
 
     diffs = set()
-    if bool(q1.absolute) != bool(q2.absolute) or len(q1.segments) != len(q2.segments):
+    if bool(q1.absolute) != bool(q2.absolute):
         return {"other"}
-    for i, (s1, s2) in enumerate(zip(q1.segments, q2.segments)):
+    segs1, segs2 = list(q1.segments), list(q2.segments)
+    if (segs1 and segs2 and isinstance(segs1[0], TransformQuerySegment) and segs1[0].header is None
+            and isinstance(segs2[0], ResourceQuerySegment) and segs2[0].header is None):
+        # k leading headerless transform segments (a file name ends a segment) read as one resource path
+        for k in range(1, len(segs1)):
+            if all(isinstance(x, TransformQuerySegment) and x.header is None for x in segs1[:k]) and \
+                    "/".join(x.encode() for x in segs1[:k]) == segs2[0].path():
+                diffs.add("ambiguity")
+                segs1, segs2 = segs1[k:], segs2[1:]
+                break
+    if len(segs1) != len(segs2):
+        return {"other"}
+    for i, (s1, s2) in enumerate(zip(segs1, segs2)):
         if isinstance(s1, TransformQuerySegment) and isinstance(s2, TransformQuerySegment):
             if qstruct.header(s1.header) != qstruct.header(s2.header):
                 diffs.add("other")
@@ -180,10 +192,6 @@ def compare_queries(q1, q2):
         elif isinstance(s1, ResourceQuerySegment) and isinstance(s2, ResourceQuerySegment):
             if qstruct.segment(s1) != qstruct.segment(s2):
                 diffs.add("other")
-        elif (i == 0 and isinstance(s1, TransformQuerySegment) and s1.header is None
-              and isinstance(s2, ResourceQuerySegment) and s2.header is None
-              and len(q1.segments) > 1 and s2.path() == s1.encode()):
-            diffs.add("ambiguity")
         else:
             diffs.add("other")
     return diffs
@@ -207,21 +215,36 @@ def install_contract(mon, on_accept=None):
 
     holder = {}
 
-    def canonical_fixed_point(query, result):
+    def refute(text, result):
         raw = holder["raw"]
-        st = qstruct.query(result)
         c = result.encode()
-        if on_accept is not None:
-            on_accept(query, c, st)
         try:
             r2 = raw(c)
         except Exception as e:
-            return {"text": query, "canonical": c, "sig": classify(result, e, None), "error": repr(e)[:160]}
-        st2 = qstruct.query(r2)
+            return {"text": text, "canonical": c, "sig": classify(result, e, None), "error": repr(e)[:160]}
         c2 = r2.encode()
-        if st2 != st or c2 != c:
-            return {"text": query, "canonical": c, "recanonical": c2, "sig": classify(result, None, r2),
-                    "structure": st, "restructure": st2}
+        if qstruct.query(r2) != qstruct.query(result) or c2 != c:
+            return {"text": text, "canonical": c, "recanonical": c2, "sig": classify(result, None, r2)}
+        return None
+
+    def canonical_fixed_point(query, result):
+        raw = holder["raw"]
+        if on_accept is not None:
+            on_accept(query, result.encode(), qstruct.query(result))
+        w = refute(query, result)
+        if w is not None and isinstance(query, str) and any(ch.isspace() for ch in query):
+            # pyparsing skips blanks between tokens: is the refutation wholly due to that?
+            stripped = "".join(ch for ch in query if not ch.isspace())
+            try:
+                rs = raw(stripped)
+            except Exception:
+                rs = None
+            ws = None if rs is None else refute(stripped, rs)
+            if ws is None:
+                w["sig"] = "whitespace|blanks skipped between tokens make the as-typed text tokenise differently from its blank-free canonical text"
+            else:
+                w = ws
+        return w
 
     holder["raw"] = mon.install(P, "parse", [("parse.canonical_fixed_point", canonical_fixed_point)])
     return holder["raw"]
